@@ -1782,8 +1782,12 @@ class Interp:
                 if st2 is None:
                     return []
                 return self.finish_call(fr, st2, bb, t, ret, k)
-        # 4. unmodelled external
-        self.unmodelled[tname] += 1
+        # 4. unmodelled external (known total functions are not reported; everything else fails closed in C07.R1)
+        from .models import TOTAL_EXTERNALS
+        if tname in TOTAL_EXTERNALS or name in TOTAL_EXTERNALS or _strip_generics(cal.name) in TOTAL_EXTERNALS:
+            self.stats["total_external"] = self.stats.get("total_external", 0) + 1
+        else:
+            self.unmodelled[tname] += 1
         if t.target is None:
             self.record(fr, bb, "call", "DivergingCall", "call to %s never returns" % tname, t.span,
                         "fail", "")
